@@ -205,7 +205,13 @@ func runWorker(s *spec.Spec, logPath string) (*spec.Result, error) {
 	return runWorkerEnv(s, logPath)
 }
 
+var driverKill = 150 * time.Second
+
+// workerEnv is added to the environment of every worker (e.g. a shorter stuck-call watchdog while shrinking).
+var workerEnv []string
+
 func runWorkerEnv(s *spec.Spec, logPath string, env ...string) (*spec.Result, error) {
+	env = append(append([]string{}, workerEnv...), env...)
 	in, _ := json.Marshal(s)
 	args := []string{"run"}
 	if logPath != "" {
@@ -229,9 +235,9 @@ func runWorkerEnv(s *spec.Spec, logPath string, env ...string) (*spec.Result, er
 		if err != nil {
 			return nil, fmt.Errorf("worker exit: %v: %s", err, tail(errb.String(), 2000))
 		}
-	case <-time.After(60 * time.Second):
+	case <-time.After(driverKill):
 		cmd.Process.Kill()
-		return nil, fmt.Errorf("worker killed by driver watchdog after 60 s")
+		return nil, fmt.Errorf("worker killed by driver watchdog after %v", driverKill)
 	}
 	var r spec.Result
 	if err := json.Unmarshal(out.Bytes(), &r); err != nil {
@@ -357,6 +363,7 @@ func check(p *propDef, tier string) int {
 	go func() { wg.Wait(); close(results) }()
 
 	ag := newAgg(p)
+	var stuck []outcome
 	var viols []outcome
 	var internal []outcome
 	done := 0
@@ -367,6 +374,10 @@ func check(p *propDef, tier string) int {
 			stopMu.Lock()
 			stop = true
 			stopMu.Unlock()
+			continue
+		}
+		if o.r.Status == "stuck" {
+			stuck = append(stuck, o)
 			continue
 		}
 		ag.add(o)
@@ -380,6 +391,43 @@ func check(p *propDef, tier string) int {
 		}
 		if done%2000 == 0 {
 			fmt.Printf("vsim: %d/%d runs, %.0fs\n", done, total, time.Since(t0).Seconds())
+		}
+	}
+	// a worker that reported a call that did not return is re-run ALONE with a longer limit before anything is concluded
+	sort.Slice(stuck, func(i, j int) bool {
+		if stuck[i].seed != stuck[j].seed {
+			return stuck[i].seed < stuck[j].seed
+		}
+		return stuck[i].run < stuck[j].run
+	})
+	haveNew := false
+	for i := range viols {
+		if matchKnown(ks, p.id, viols[i].r.Violation) == nil {
+			haveNew = true
+		}
+	}
+	for i, o := range stuck {
+		if i >= 2 || haveNew {
+			break // a violation is already in hand; the stuck runs add nothing
+		}
+		fmt.Printf("vsim: run seed=%d run=%d reported a call that did not return (%s); re-running it alone with a 90 s limit\n", o.seed, o.run, o.r.Violation.Detail["call"])
+		r, err := runWorkerEnv(o.s, "", "VERIF_WATCHDOG_S=90")
+		if err != nil {
+			internal = append(internal, outcome{run: o.run, seed: o.seed, s: o.s, err: err})
+			continue
+		}
+		if r.Status == "stuck" {
+			r.Status = "violation"
+			o.r = r
+			ag.add(o)
+			viols = append(viols, o)
+		} else {
+			fmt.Printf("vsim: it finished when run alone (%s): treated as a slow run, not a finding\n", r.Status)
+			o.r = r
+			ag.add(o)
+			if r.Status == "violation" {
+				viols = append(viols, o)
+			}
 		}
 	}
 	if len(internal) > 0 {
@@ -566,6 +614,9 @@ func replayFile(path string) int {
 	r, err := runWorker(rf.Spec, os.Getenv("VERIF_EVENTLOG"))
 	if err != nil {
 		die2("replay: %v", err)
+	}
+	if r.Status == "stuck" {
+		r.Status = "violation"
 	}
 	if r.Status == "violation" {
 		fmt.Printf("replay: %s key=%q log_hash=%s\n", r.Violation.Class, r.Violation.Key, r.LogHash)
